@@ -87,6 +87,10 @@ Theorem c01_cell_monotone : forall m1 m2 e, (0 <= m1 <= m2)%Z -> (fixed_int 8 m1
 Proof. exact (fixed_monotone 8). Qed.
 Print Assumptions c01_cell_text.
 
+(* the row count "N %d" and the row numbers: the text reads back as the number *)
+Theorem c01_count_text : forall n t, fmt_int F_d n = Some t -> read_number t = Some (mkp (n <? 0)%Z (Z.abs n) 0 0).
+Proof. exact (fmt_int_reads F_d). Qed.
+
 (* non-vacuity: a concrete two-potential table *)
 Example c01_example :
   let pots := [{| p_a := 0; p_b := 1; p_hasd := true |}; {| p_a := 1; p_b := 1; p_hasd := false |}] in
